@@ -277,6 +277,38 @@ pub fn verif_max_usize(a: usize, b: usize) -> (r: usize) ensures r == (if a >= b
 pub fn verif_map_has_value(m: &MapTvPairToFo, fo: &FileOffset) -> (r: bool)
     ensures r == (exists|k: Key| #[trigger] m@.contains_key(k) && m@[k] == *fo)
 { unimplemented!() }
+
+// ---- buffer_to_fixedstructptr (src/data/fixedstruct.rs), the part before the unsafe copy: which buffers are NOT a record
+/// stand-ins (R9) for `slice.iter().all(|&x| x == v)` / `.any(..)`
+#[verifier::external_body]
+pub fn verif_all_eq(s: &[u8], v: u8) -> (r: bool) ensures r == (forall|i: int| 0 <= i < s@.len() ==> s@[i] == v) { unimplemented!() }
+#[verifier::external_body]
+pub fn verif_any_eq(s: &[u8], v: u8) -> (r: bool) ensures r == (exists|i: int| 0 <= i < s@.len() && s@[i] == v) { unimplemented!() }
+#[verifier::external_body]
+pub fn verif_cfg_debug_not_test() -> bool { unimplemented!() }
+#[verifier::external_body]
+pub fn verif_some_ptr(buffer: &[u8], fixedstructtype: FixedStructType) -> (r: Option<FixedStructDynPtr>) ensures r is Some { unimplemented!() }
+
+/// C08: a slot is skipped as "no record" only if it is too short, all 0x00 or all 0xFF -- a record with SOME zero or 0xFF bytes is kept
+pub fn buffer_to_fixedstructptr_checks(buffer: &[u8], fixedstructtype: FixedStructType) -> (r: Option<FixedStructDynPtr>)
+    requires fixedstructtype.layout_ok()
+    ensures
+        r is None ==> buffer@.len() < fixedstructtype.esz()
+            || (forall|i: int| 0 <= i < fixedstructtype.esz() ==> buffer@[i] == 0u8)
+            || (forall|i: int| 0 <= i < fixedstructtype.esz() ==> buffer@[i] == 0xFFu8),
+{
+//@cut slice path=src/data/fixedstruct.rs fn=buffer_to_fixedstructptr anchor="let sz: usize = fixedstructtype.size();" take=range end_anchor="if slice_.iter().all(|&x| x == 0xFF) {" label=BFP-CHECKS
+//@replace "cfg!(debug_assertions) && ! cfg!(test)" "verif_cfg_debug_not_test() && false"
+//@replace "slice_.iter().all(|&x| x == 0)" "verif_all_eq(slice_, 0)" count=0+
+//@replace "slice_.iter().any(|&x| x == 0)" "verif_any_eq(slice_, 0)" count=0+
+//@replace "slice_.iter().all(|&x| x == 0xFF)" "verif_all_eq(slice_, 0xFF)" count=0+
+//@replace "slice_.iter().any(|&x| x == 0xFF)" "verif_any_eq(slice_, 0xFF)" count=0+
+//@after "let slice_ = &buffer[..sz];"
+    proof { assert(slice_@ =~= buffer@.subrange(0, sz as int)); assert(forall|i: int| 0 <= i < sz ==> slice_@[i] == buffer@[i]); }
+//@end
+    verif_some_ptr(buffer, fixedstructtype)
+}
+
 pub type ResultS3FixedStructFind = ResultS3<(FileOffset, FixedStruct), (Option<FileOffset>, Error)>;
 /// whether a message can be built from a record's bytes (FixedStruct::new succeeds): a function of the layout and the bytes
 pub uninterp spec fn buildable(ft: FixedStructType, bytes: Seq<u8>) -> bool;
